@@ -222,8 +222,9 @@ let f _id vs =
                      let spec = atomval u v o rel in
                      if spec <> T then begin
                        let txt = Printf.sprintf "returns %s, reference semantics says %s (impl=%s)" (subj_s u) (b3s spec) (set_s users) in
-                       (* the result limit was reached before the traversal reported its error *)
-                       if spec = E && limit > 0 && in_model && (errs <> [] || amb <> []) then
+                       (* the result limit was reached before the traversal reported its error (condition or depth):
+                          the partial answer was computed with the failing branch treated as empty *)
+                       if limit > 0 && in_model && (errs <> [] || amb <> []) then
                          knowns := ("limit_drops_error " ^ where ^ " " ^ txt) :: !knowns
                        else classify txt
                      end;
